@@ -8,6 +8,14 @@ LEVEL = 'proof'
 SRC = ['Source/Lib/Common/Codec/EbThreads.c', 'Source/Lib/Common/Codec/EbMalloc.c', 'Source/Lib/Common/Codec/EbLog.c']
 
 
+def regenerate():
+    sys.path.insert(0, os.path.join(VERIF, 'translators'))
+    import tr_locks
+    txt, m = tr_locks.generate_guard()
+    write_if_changed(os.path.join(GEN, 'GuardGen.v'), txt)
+    return m
+
+
 class Proc:
     def __init__(self, path):
         self.p = subprocess.Popen([path], stdin=subprocess.PIPE, stdout=subprocess.PIPE, stderr=subprocess.DEVNULL, text=True, bufsize=1)
@@ -300,9 +308,16 @@ class Scenario:
 
 
 def run(ck):
-    ck.trust('Coq 8.16.1 kernel (coqc); no native_compute', 'hand model SV.SRMring tied by lockstep differential run of every critical section against the real code (harness #includes EbSystemResourceManager.c)',
+    ck.trust('Coq 8.16.1 kernel (coqc); no native_compute', 'translators/tr_locks.py (generate_guard): which calls / field writes count as shared accesses is a fixed list (circular-buffer, muxing-queue and FIFO operations; live_count, release_enable, quit_signal)', 'hand model SV.SRMring tied by lockstep differential run of every critical section against the real code (harness #includes EbSystemResourceManager.c)',
              'atomicity: each model step is one mutex-protected section of the C (pthread mutex / POSIX semaphore semantics trusted)', 'extraction (ExtrOcamlBasic only) + obs/c23.ml', 'gcc')
-    ck.prove('Properties_C23', extra_modules=['SRM', 'SRMorder', 'SRMring', 'Proofs_C23', 'RingRefine'])
+    try:
+        gm = regenerate()
+        ck.obligation('translate(critical sections of EbSystemResourceManager.c -> gen/GuardGen.v)', sum(f['touches'] for f in gm['functions']) >= 20 and len(gm['functions']) >= 12,
+                      '%d functions, %d shared accesses (expected at least 12 / 20: the translator may have lost sight of the queue operations)' % (len(gm['functions']), sum(f['touches'] for f in gm['functions'])))
+        ck.cov['critical_section_skeletons'] = {f['name']: f['touches'] for f in gm['functions']}
+    except Exception as e:
+        ck.obligation('translate(critical sections of EbSystemResourceManager.c -> gen/GuardGen.v)', False, repr(e)[:400])
+    ck.prove('Properties_C23', extra_modules=['SRM', 'SRMorder', 'SRMring', 'Proofs_C23', 'RingRefine', 'GuardFlow'], gen_modules=['GuardGen'])
     hd = os.path.join(CACHE, 'h', 'c23'); os.makedirs(hd, exist_ok=True)
     hbin = os.path.join(hd, 'srm_h')
     ok, log = build.cc(hbin, [os.path.join(VERIF, 'harness/unit/srm_harness.c')] + [os.path.join(REPO, s) for s in SRC], flags='-DNDEBUG -w')
